@@ -1,5 +1,5 @@
 """C12 -- the language server answers every request once and survives any message sequence.
-Proof: Properties/C12.v (reply ids = request ids, in order, for every message sequence; error iff unimplemented).
+Proof: Properties/C12.v (reply ids = request ids, in order, for every message sequence; error iff unimplemented or wrongly shaped parameters).
 Tie: the frames of the real `ironplcc lsp --stdio` compared, in order, with the model's for the same messages.
 Search: random interleavings of the property's alphabet; exit status, one reply per request id, none for notifications."""
 from concurrent.futures import ThreadPoolExecutor
@@ -16,7 +16,7 @@ MANIFEST_ENTRY = {
                  "real server on random sessions; exit status and reply multiset observed on the real binary",
     "text": "Theorem for every message sequence over the property's alphabet and every analysis/tokenizer: the reply ids written are "
             "exactly the request ids received, in order (so every request is answered once and nothing else is); an error reply is "
-            "written exactly for unimplemented methods. The model is a total function, so survival and exit status are not theorems: "
+            "written exactly for unimplemented methods (MethodNotFound) and for parameters of the wrong shape (InvalidParams). The model is a total function, so survival and exit status are not theorems: "
             "they are observed on the real `ironplcc lsp --stdio` for every generated session, whose frames (publish / reply / error, "
             "with uri, version, id, null-ness) are compared in order with the model's.",
     "note": "Trusted: Coq kernel, extraction + driver, tools/lspclient.py. lsp-server / JSON-RPC framing, process exit status and "
@@ -28,14 +28,16 @@ TRUSTED = [
     "lsp.rs handlers are modelled by hand (Model/Lsp.v), validated by ordered frame correspondence on every run",
     "tools/lspclient.py; lsp-server crate framing; OS exit status",
 ]
-ASSUMPTIONS = ["messages are well-formed JSON-RPC with well-formed params for the methods the server implements"]
+ASSUMPTIONS = ["messages are well-formed JSON-RPC (an object with a method and/or an id); parameters of any JSON shape"]
 
 UNIMPL_REQ = ["textDocument/hover", "textDocument/completion", "workspace/symbol", "textDocument/definition",
               # protocol-level and made-up methods: a message with an id is a request and is answered, whatever its name
               "$/cancelRequest", "$/progress", "$/ironplc/status", "workspace/executeCommand", "textDocument/semanticTokens/range",
               "window/workDoneProgress/create", "x", "textDocument/didOpenX", "initialized"]
-UNIMPL_NOTE = ["workspace/didChangeConfiguration", "textDocument/didSave", "$/setTrace", "textDocument/didClose",
+UNIMPL_NOTE = ["workspace/didChangeConfiguration", "textDocument/didSave", "$/setTrace",
                "$/cancelRequest", "$/progress", "workspace/didChangeWatchedFiles", "x/y"]
+# notifications the server implements, sent with parameters that do not have their shape: nothing is done for them
+IMPL_NOTE = ["textDocument/didOpen", "textDocument/didChange", "textDocument/didClose"]
 
 
 def gen_session(rng, ndocs, maxlen):
@@ -44,7 +46,7 @@ def gen_session(rng, ndocs, maxlen):
     rid = 1
     ver = 1
     for _ in range(n):
-        k = rng.choice("OOCCCSSQNA")
+        k = rng.choice("OOCCCSSQNAXBM")
         uid = rng.randint(1, 3)
         is_file = rng.random() < 0.85
         if k == "O":
@@ -62,6 +64,13 @@ def gen_session(rng, ndocs, maxlen):
             rid += 1
         elif k == "N":
             msgs.append(("N", rng.choice(UNIMPL_NOTE)))
+        elif k == "M":
+            msgs.append(("N", rng.choice(IMPL_NOTE), rng.randrange(len(L.BAD_PARAMS))))
+        elif k == "X":
+            msgs.append(("X", uid, is_file))
+        elif k == "B":
+            msgs.append(("B", rid, rng.randrange(len(L.BAD_PARAMS))))
+            rid += 1
         else:
             msgs.append(("A", rng.randint(1000, 2000)))
     return msgs
@@ -71,7 +80,7 @@ def check_session(msgs, res):
     """the property on the real server's behaviour"""
     if res["exit"] != 0:
         return "server ended with status %r" % (res["exit"],)
-    want = [m[1] for m in msgs if m[0] in ("S", "Q")]
+    want = [m[1] for m in msgs if m[0] in ("S", "Q", "B")]
     got = []
     for f in res["frames"]:
         if "id" in f and "method" not in f and f["id"] != lspclient.SHUT_ID:
@@ -101,7 +110,9 @@ def search(run, info):
     nsess = 400 if run.tier == "quick" else 8000
     sessions = [gen_session(rng, len(texts), 60) for _ in range(nsess)]
     # fixed regression sessions (the defects repaired earlier)
-    sessions += [[("A", 77)], [("Q", 1, "textDocument/hover")], [("C", 1, True, 1, [])], [("O", 1, True, 1, 0), ("C", 1, True, 2, [1, 0])],
+    sessions += [[("B", 1, k) for k in range(len(L.BAD_PARAMS))], [("N", n, k) for n in IMPL_NOTE for k in range(len(L.BAD_PARAMS))],
+                 [("O", 1, True, 1, 0), ("X", 1, True), ("S", 1, 1, True), ("X", 1, True), ("X", 2, False), ("C", 1, True, 2, [1])],
+                 [("A", 77)], [("Q", 1, "textDocument/hover")], [("C", 1, True, 1, [])], [("O", 1, True, 1, 0), ("C", 1, True, 2, [1, 0])],
                  [("S", 1, 2, True)], [("S", 1, 1, False)], []]
     binp = vlib.ironplcc_bin()
     model = {}
@@ -138,7 +149,8 @@ def search(run, info):
     run.cov["histogram"].update({"msg:" + k: v for k, v in hist.items()})
     return {"coverage": {
         "rule": "sessions = random interleavings (length 1-60) of didOpen / didChange with 0, 1 or 2 content changes / "
-                "semanticTokens requests / requests and notifications for unimplemented methods / client responses, over three "
+                "didClose / semanticTokens requests / requests and notifications for unimplemented methods / requests and "
+                "notifications of implemented methods with parameters of the wrong shape / client responses, over three "
                 "document numbers as file: and non-file URIs incl. unopened ones, followed by shutdown and exit; plus fixed "
                 "regression sessions; non-trivial = at least one message, distinct by message list",
         "sessions": len(sessions),
